@@ -313,7 +313,115 @@ def run(ctx):
             if out != want:
                 res.mismatch(op[:260], want[:160], out[:160])
         res.extra['model_evaluations'] = len(ops)
+    end_to_end_schedule(ctx, res)
     return res
+
+
+def end_to_end_schedule(ctx, res):
+    """both ends of every negotiation feed the SAME inputs to the key schedule: whenever two endpoints derive IKE_SA or CHILD_SA
+    keys for the same exchange (same nonces), the shared secret, the old SK_d, the SPIs and hence the keys are identical —
+    through INVALID_KE_PAYLOAD retries of IKE_SA_INIT / CREATE_CHILD_SA / IKE_SA rekey and through crossing PFS exchanges,
+    where a key pair kept in the wrong place is used with the wrong exchange"""
+    import campaign as CP
+    import ikesa as IKESA
+    import stateful as S
+    rng = ctx.rng
+    scenarios = [
+        ('ike-rekey-retry-modp', {'dh': ['15', '14'], 'dh_b': ['14', '15'], 'ike_lifetime': 100, 'ike_lifetime_b': 5000, 'dpd': 3000}),
+        ('ike-rekey-retry-ecp', {'dh': ['20', '19'], 'dh_b': ['19', '20'], 'ike_lifetime': 100, 'ike_lifetime_b': 5000, 'dpd': 3000}),
+        ('ike-rekey-retry-by-responder', {'dh': ['14', '15'], 'dh_b': ['15', '14'], 'ike_lifetime': 5000, 'ike_lifetime_b': 100, 'dpd': 3000}),
+        ('crossing-pfs-ecp', {'child_dh': ['19'], 'dpd': 3000, 'ike_lifetime': 5000}),
+        ('crossing-pfs-modp', {'child_dh': ['14'], 'dpd': 3000, 'ike_lifetime': 5000}),
+        ('child-retry', {'child_dh': ['20', '19'], 'child_dh_b': ['19', '20'], 'dpd': 3000, 'ike_lifetime': 5000}),
+    ]
+    for name, conf in scenarios:
+        seed = rng.randrange(1 << 30)
+        ike_log, child_log = [], []
+        real_ike = IKESA.IkeSa.generate_ike_sa_key_material
+        real_child = IKESA.IkeSa.generate_child_sa_key_material
+
+        def ike_wrapper(sa, ike_proposal, nonce_i, nonce_r, spi_i, spi_r, shared_secret, old_sk_d=None):
+            k = real_ike(sa, ike_proposal, nonce_i, nonce_r, spi_i, spi_r, shared_secret, old_sk_d)
+            ike_log.append({'ep': cur[0].current.name, 'ni': bytes(nonce_i), 'nr': bytes(nonce_r), 'spi_i': bytes(spi_i), 'spi_r': bytes(spi_r),
+                            'secret': bytes(shared_secret), 'old': bytes(old_sk_d or b''), 'keys': tuple(bytes(x) for x in k)})
+            return k
+
+        def child_wrapper(sa, child_proposal, keyseed, sk_d):
+            k = real_child(sa, child_proposal, keyseed, sk_d)
+            child_log.append({'ep': cur[0].current.name, 'seed': bytes(keyseed), 'sk_d': bytes(sk_d),
+                              'keys': tuple(bytes(x or b'') for x in (k.sk_ei, k.sk_ai, k.sk_er, k.sk_ar))})
+            return k
+        cur = [None]
+        IKESA.IkeSa.generate_ike_sa_key_material = ike_wrapper
+        IKESA.IkeSa.generate_child_sa_key_material = child_wrapper
+        try:
+            with CP.History(seed, trace=False, **conf) as h:
+                h.oracles = [CP.o_no_escape, CP.o_sad_equals_tracked]
+                w = h.w
+                cur[0] = w
+                rep = {'seed': seed, 'scenario': name, 'conf': {a: str(b) for a, b in conf.items()}}
+                res.evaluations += 1
+                res.nontrivial.add(('e2e-schedule', name))
+                res.count('e2e-schedule:' + name)
+                if not h.establish('A'):
+                    res.fail('e2e-not-established:' + name, 'the initial exchanges did not complete', rep)
+                    continue
+                h.settle(30)
+                if name.startswith('ike-rekey'):
+                    h.op('tick', 106)
+                    h.settle(60)
+                    h.op('acquire', 'A', 4001)            # and the new IKE_SA must be usable by both
+                    h.settle(40)
+                elif name.startswith('crossing'):
+                    h.op('acquire', 'A', 4001)
+                    h.settle(40)
+                    ka = [c for s_ in w.A.sas() for c in s_.child_sas]
+                    kb = [c for s_ in w.B.sas() for c in s_.child_sas]
+                    if len(ka) >= 2 and len(kb) >= 2:
+                        # the two ends rekey DIFFERENT CHILD_SAs at the same moment: each answers the other's request while its own is in flight
+                        h.op('expire', 'A', ka[0].inbound_spi, False)
+                        h.op('expire', 'B', kb[1].inbound_spi, False)
+                    h.settle(60)
+                else:
+                    h.op('acquire', 'A', 4001)
+                    h.settle(40)
+                    h.op('acquire', 'B', 4002)
+                    h.settle(40)
+                # pair the derivations of the two ends by their nonces
+                by = {}
+                for r_ in ike_log:
+                    by.setdefault(('ike', r_['ni'], r_['nr']), []).append(r_)
+                for r_ in child_log:
+                    by.setdefault(('child', r_['seed'][-32:]), []).append(r_)
+                pairs = 0
+                for key, recs in by.items():
+                    eps = set(r_['ep'] for r_ in recs)
+                    if len(eps) < 2:
+                        continue
+                    pairs += 1
+                    a = next(r_ for r_ in recs if r_['ep'] == 'A')
+                    b = next(r_ for r_ in recs if r_['ep'] == 'B')
+                    if key[0] == 'ike':
+                        for f in ('secret', 'old', 'spi_i', 'spi_r'):
+                            if a[f] != b[f]:
+                                res.fail('schedule-input-differs:%s' % f, '%s: the two ends derive the keys of one IKE_SA from different %s '
+                                         '(%d / %d octets)' % (name, f, len(a[f]), len(b[f])), rep)
+                        if a['keys'] != b['keys']:
+                            res.fail('ike-keys-differ', '%s: the two ends hold different SK_* for the same IKE_SA' % name, rep)
+                    else:
+                        if a['seed'] != b['seed'] or a['sk_d'] != b['sk_d']:
+                            res.fail('schedule-input-differs:child', '%s: the two ends derive the keys of one CHILD_SA from different g^ir | Ni | Nr '
+                                     'or SK_d (%d / %d octets)' % (name, len(a['seed']), len(b['seed'])), rep)
+                        elif a['keys'] != b['keys']:
+                            res.fail('child-keys-differ', '%s: the two ends hold different KEYMAT for the same CHILD_SA' % name, rep)
+                res.count('e2e-schedule:pairs', pairs)
+                if pairs < 2:
+                    res.fail('e2e-schedule-vacuous:' + name, 'fewer than two key derivations were made by both ends (%d)' % pairs, rep)
+                for key, what, at in h.findings[:2]:
+                    res.fail(key, what, dict(rep, ops=S.ser_ops(h.ops[:at + 1])))
+        finally:
+            IKESA.IkeSa.generate_ike_sa_key_material = real_ike
+            IKESA.IkeSa.generate_child_sa_key_material = real_child
 
 
 def replay(rep):
